@@ -1002,7 +1002,9 @@ def exec_merge(case, ns):
         # shares with another document: "documents are values" does not hold for this run
         if id(self) in last_state and last_state[id(self)][1] != l:
             aliasing.append("changed-behind")
-        if self.data is rhs:
+        if self.data is rhs and (isinstance(rhs, (dict, list, set)) or type(rhs).__name__ == "CommentedSet"):
+            # only a shared MUTABLE node matters; two scalar documents holding the same interned
+            # object (42 and 42) are values, not shared state
             aliasing.append("self-merge")
         # a right-hand document that is merged again (matrix mode) must still be the document that was loaded
         if id(rhs) in rhs_seen and rhs_seen[id(rhs)][1] != r:
